@@ -78,6 +78,15 @@ CHECKS["C13"] = dict(
     design="DESIGN.md §5 C13",
     technique="Coq proof (nested induction, sorted-permutation canonicity) + differential correspondence + read-back reader")
 
+CHECKS["C16"] = dict(
+    text=("Theorems over the model of print_decay_modes: rows are a permutation of the decay lines (each once), ordered by "
+          "branching fraction in the requested direction with file order kept among equal values (stability as a filter law), "
+          "one common factor; plain: values unchanged; normalize: shown values sum to 1; scale: the factor is scale/max so the "
+          "largest shows the scale; contradictory/out-of-range options refused. Exact rationals, unbounded tables. "
+          "Executed only: the %.7g text of each number (checked within half a unit of the 7th digit) and str(float) of parameters."),
+    design="DESIGN.md §5 C16",
+    technique="Coq proof (stable insertion sort: permutation/sortedness/stability; field arithmetic over Q) + differential correspondence on parsed stdout")
+
 NOT_YET = {
 }
 
